@@ -920,3 +920,42 @@ Proof.
   apply (ep_full_in st sp _ wc POLLIN (reachEC_inv _ _ R)).
   apply (reports_internal sp wc tc wfd tfd e (reachE_unique _ _ R) LC). now apply PI.
 Qed.
+
+(* ==== 4. back-end selection, hasChannel, the in-loop-thread assert ========================================= *)
+Lemma default_backend_link : forall b,
+  default_backend b = if Poller_newDefaultPoller_uses_poll b then BPoll else BEpoll.
+Proof. intros [|]; reflexivity. Qed.
+Lemma hasChannel_lookup_current : Poller_hasChannel_is_map_lookup = true.
+Proof. reflexivity. Qed.
+Lemma entry_points_assert_thread_current : Poller_entry_points_assert_thread = true.
+Proof. reflexivity. Qed.
+
+(* Poller::hasChannel is true exactly of the registered channels *)
+Lemma ep_hasChannel_iff : forall st sp c, reachEC st sp ->
+  (ep_hasChannel st c = true <-> exists s, sp c = Some s /\ s_reg s = true).
+Proof.
+  intros st sp c R. pose proof (reachEC_inv _ _ R) as I. unfold ep_hasChannel.
+  pose proof (ie_obj _ _ I c) as RO. split.
+  - intros H. destruct (e_objs st c) as [ch|] eqn:Ho; [|discriminate].
+    apply rel_obj_some_l in RO. destruct RO as [s [Hs [Efd _]]].
+    destruct (e_map st (fd ch)) as [c'|] eqn:Hm; [|discriminate].
+    apply Nat.eqb_eq in H. subst c'. apply (ie_map _ _ I) in Hm. destruct Hm as [s0 [A [B _]]].
+    exists s0. auto.
+  - intros [s [Hs Rg]]. rewrite Hs in RO. apply rel_obj_some in RO. destruct RO as [ch [Ho [Efd _]]]. rewrite Ho.
+    assert (Hm : e_map st (fd ch) = Some c). { apply (ie_map _ _ I). exists s. auto. }
+    rewrite Hm. apply Nat.eqb_refl.
+Qed.
+Lemma pp_hasChannel_iff : forall st sp c, reachPC st sp ->
+  (pp_hasChannel st c = true <-> exists s, sp c = Some s /\ s_reg s = true).
+Proof.
+  intros st sp c R. pose proof (reachPC_inv _ _ R) as I. unfold pp_hasChannel.
+  pose proof (ip_obj _ _ _ I c) as RO. split.
+  - intros H. destruct (p_objs st c) as [ch|] eqn:Ho; [|discriminate].
+    apply rel_obj_some_l in RO. destruct RO as [s [Hs [Efd _]]].
+    destruct (p_map st (fd ch)) as [c'|] eqn:Hm; [|discriminate].
+    apply Nat.eqb_eq in H. subst c'. apply (ip_map _ _ _ I) in Hm. destruct Hm as [s0 [A [B _]]].
+    exists s0. auto.
+  - intros [s [Hs Rg]]. rewrite Hs in RO. apply rel_obj_some in RO. destruct RO as [ch [Ho [Efd _]]]. rewrite Ho.
+    assert (Hm : p_map st (fd ch) = Some c). { apply (ip_map _ _ _ I). exists s. auto. }
+    rewrite Hm. apply Nat.eqb_refl.
+Qed.
